@@ -374,10 +374,10 @@ def run(ck):
         for used in range(4):
             cases.append((f, None, rng.choice(list(VERSIONS)), 4, used, False, False))
     n_rsa4096 = sum(1 for c in cases if c[2] == "1.1")
-    extra = ck.budget(220, 25000)
+    extra = ck.budget(150, 6000)
     while extra > 0:
         v = rng.choice(list(VERSIONS))
-        if v == "1.1" and ck.quick and n_rsa4096 > 40:
+        if v == "1.1" and n_rsa4096 > ck.budget(24, 400):
             continue  # RSA-4096 private key loading dominates the quick budget
         n_rsa4096 += v == "1.1"
         if rng.random() < 0.2 and ele_v1_revs:
@@ -405,8 +405,8 @@ def run(ck):
         return sp_cache[k]
 
     reqs_dc, reqs_bad, reqs_dar = [], [], []
-    malformed_budget = ck.budget(60, 3000)
-    dar_neg_budget = ck.budget(200, 30000)
+    malformed_budget = ck.budget(60, 1200)
+    dar_neg_budget = ck.budget(200, 6000)
     seen_cfg = set()
     prev_by_cls = {}
     for ci, (fam, rev, ver, n, used, by_socc, explicit) in enumerate(cases):
@@ -650,8 +650,11 @@ def run(ck):
 
         # response
         def mk_dar(d_c=dc, d_ac=dac, ab=auth_beacon):
-            klass = DAR._get_class(family=fam, protocol_version=d_c.version, revision=rev or "latest")
-            return klass(family=fam, debug_credential=d_c, auth_beacon=ab, dac=d_ac, sign_provider=dck_sp(kk["dck"][0], pss), revision=rev or "latest")
+            if not rev:
+                # the public entry point (nxpdebugmbox dat auth): picks the response class and the padding itself
+                return DAR.create(family=fam, version=None, dc=d_c, auth_beacon=ab, dac=d_ac, dck=kk["dck"][0])
+            klass = DAR._get_class(family=fam, protocol_version=d_c.version, revision=rev)
+            return klass(family=fam, debug_credential=d_c, auth_beacon=ab, dac=d_ac, sign_provider=dck_sp(kk["dck"][0], pss), revision=rev)
         rr = pyres(lambda: (lambda d: (d, d.export(), d._get_data_for_signature(), d._get_common_data()))(mk_dar()))
         if not s_dar.expect(rr[0] == "ok", dinp, "building / exporting the authentication response raises", rr):
             continue
